@@ -654,6 +654,7 @@ func baseCfg(r *sim.Rng, i int, thorough bool, blocks int) tssworld.Cfg {
 		Blocks: blocks, PSubmit: sim.Pick(r, []int{50, 90}), LazyMembers: r.Intn(2), Hostile: true, DEOps: true,
 		ReqPerBlockPct: 30, CreationPeriod: uint64(sim.Pick(r, []int{6, 20})), Inflation: i%2 == 0,
 		Replicas: 1, NumVals: r.Range(2, 4), ExtraUsers: 3,
+		MempoolNoise: i%3 != 0, RestartEvery: int64(sim.Pick(r, []int{0, 3, 7})),
 	}
 	if thorough {
 		cfg.Replicas, cfg.ReplicasConcurrent = 2, true
@@ -718,7 +719,7 @@ func setup(run *sim.Run, h *tssworld.Hist, thorough bool, sweep *sweepSpec) []ts
 		}
 		g.transitions()
 	}
-	return []tssworld.Monitor{&divMon{g}}
+	return []tssworld.Monitor{&divMon{g: g}}
 }
 
 func main() {
@@ -752,7 +753,7 @@ func main() {
 	sort.Strings(ks)
 	run.Extra("msg_types", ks)
 	kindsMu.Unlock()
-	for _, c := range []string{"params:accepted", "params:rejected-by-validation", "authority:transition-proposed", "blocks-compared-across-replicas", "sweep:param-values-accepted"} {
+	for _, c := range []string{"params:accepted", "params:rejected-by-validation", "authority:transition-proposed", "blocks-compared-across-replicas", "sweep:param-values-accepted", "replica-restarted-from-db", "checktx-on-primary-only"} {
 		run.Require(c, 1)
 	}
 	run.Require("msg-types-exercised", 33) // 30 band Msg types by tx + bank/staking; the other 9 (UpdateParams x7 incl. oracle by authority, TransitionGroup, ForceTransitionGroup) go through the authority path
@@ -770,7 +771,10 @@ func paramName(s string) string {
 }
 
 // divMon turns replica divergence into a violation and tracks coverage.
-type divMon struct{ g *gen }
+type divMon struct {
+	g                *gen
+	restarts, checks int
+}
 
 func (m *divMon) OnTx(h *tssworld.Hist, tx *tssworld.TxRec) {
 	u := sdk.MsgTypeURL(tx.Msg)
@@ -791,4 +795,7 @@ func (m *divMon) OnEndBlock(h *tssworld.Hist, b *tssworld.BlockObs) {
 		return
 	}
 	h.Run.Count("blocks-compared-across-replicas", 1)
+	h.Run.Count("replica-restarted-from-db", h.W.Restarts-m.restarts)
+	h.Run.Count("checktx-on-primary-only", h.W.CheckTxs-m.checks)
+	m.restarts, m.checks = h.W.Restarts, h.W.CheckTxs
 }
